@@ -306,6 +306,22 @@ func buildTargets() []*target {
 	if err := ec.Sign(w.nodeSigner, w.rtID); err != nil {
 		panic(err)
 	}
+	var otherRoot hash.Hash
+	otherRoot.FromBytes([]byte("verif: another io root"))
+	ecB := commitment.ExecutorCommitment{
+		NodeID: w.nodeSigner.Public(),
+		Header: commitment.ExecutorCommitmentHeader{
+			SchedulerID: w.nodeSigner.Public(),
+			Header: commitment.ComputeResultsHeader{
+				Round: 42, PreviousHash: emptyRoot, IORoot: &otherRoot, StateRoot: &emptyRoot,
+				MessagesHash: &emptyRoot, InMessagesHash: &emptyRoot, InMessagesCount: 1,
+			},
+			RAKSignature: &signature.RawSignature{},
+		},
+	}
+	if err := ecB.Sign(w.nodeSigner, w.rtID); err != nil {
+		panic(err)
+	}
 	ecFail := commitment.ExecutorCommitment{NodeID: w.nodeSigner.Public(), Header: commitment.ExecutorCommitmentHeader{
 		SchedulerID: w.nodeSigner.Public(), Header: commitment.ComputeResultsHeader{Round: 43, PreviousHash: emptyRoot}}}
 	ecFail.Header.SetFailure(commitment.FailureUnknown)
@@ -330,6 +346,12 @@ func buildTargets() []*target {
 		registry.NewRegisterNodeTx(5, fee, sigNode),
 		registry.NewRegisterRuntimeTx(6, fee, w.rt),
 		roothash.NewExecutorCommitTx(7, fee, w.rtID, []commitment.ExecutorCommitment{ec, ecFail}),
+		// equivocation evidence: two signed commitments of one node for the same round that differ
+		// in the IO root (the handler runs Evidence.ValidateBasic on the untrusted body first)
+		roothash.NewEvidenceTx(8, fee, &roothash.Evidence{ID: w.rtID, EquivocationExecutor: &roothash.EquivocationExecutorEvidence{CommitA: ec, CommitB: ecB}}),
+		roothash.NewSubmitMsgTx(9, fee, &roothash.SubmitMsg{ID: w.rtID, Tag: 7, Fee: *quantity.NewFromUint64(1), Tokens: *quantity.NewFromUint64(2), Data: []byte("verif")}),
+		governance.NewCastVoteTx(10, fee, &governance.ProposalVote{ID: 1, Vote: governance.VoteYes}),
+		governance.NewSubmitProposalTx(11, fee, &governance.ProposalContent{CancelUpgrade: &governance.CancelUpgradeProposal{ProposalID: 1}}),
 	}
 	var txSeeds, txInner [][]byte
 	for _, tx := range txs {
@@ -363,6 +385,14 @@ func buildTargets() []*target {
 			return rej(err, "rejected:body")
 		}
 		remarshal(v)
+		// the stateless validation every handler runs on the decoded body before anything else
+		// (roothash Evidence.ValidateBasic, governance ProposalContent.ValidateBasic, ...)
+		if x, ok := v.(interface{ ValidateBasic() error }); ok {
+			if err := x.ValidateBasic(); err != nil {
+				return rej(err, "rejected:validate")
+			}
+			return "decoded:body-validated"
+		}
 		return "decoded:body"
 	}
 	add(&target{name: "tx", boundary: "consensus transaction bytes (mempool check / delivery)", cbor: true,
